@@ -231,8 +231,10 @@ def bytes_models(tier):
 def bytes_scenarios(rows, tier, seed):
     out = []
     for i, r in enumerate(rows):
-        for be in ("mem", "fs", "fsenc"):
-            out.append({"id": "bytes/%05d-%s" % (i, be), "backend": be, "opt": {}, "steps": r["steps"], "grp": "", "spv": 0})
+        for j, be in enumerate(("mem", "fs", "fsenc")):
+            # the origin writes its dates in any of the three HTTP-date formats: they are header bytes like any other
+            steps = [dict(st, ans=[dict(a, dfmt=(i + j) % 3) for a in st.get("ans", [])]) if st.get("op") == "req" else st for st in r["steps"]]
+            out.append({"id": "bytes/%05d-%s" % (i, be), "backend": be, "opt": {}, "steps": steps, "grp": "", "spv": 0})
     return out
 
 
@@ -352,6 +354,11 @@ def fault_variation(scn, tier, seed):
     r = random.Random(seed * 7368787 + 23)
     out = []
     for s in scn:
+        if s["id"].startswith("swr_"):
+            # timing scenarios: one run each, with the debug-level logger on (which run of two meets a timeout first is
+            # not an observation the logger comparison could be held to)
+            out.append(dict(s, opt=dict(s.get("opt") or {}, log=1)))
+            continue
         steps = []
         for st in s["steps"]:
             if st.get("op") != "req" or not st.get("faults"):
@@ -369,7 +376,7 @@ def fault_variation(scn, tier, seed):
                 fl.append({"n": f["n"], "kind": kind, "pos": r.randrange(0, 200)})
             steps.append(dict(st, faults=fl))
         for lg in (0, 1):
-            out.append(dict(s, id="%s/log%d" % (s["id"], lg), steps=steps, grp=s["id"], spv=lg, gk="log", opt={"log": lg},
+            out.append(dict(s, id="%s/log%d" % (s["id"], lg), steps=steps, grp=s["id"], spv=lg, gk="log", opt=dict(s.get("opt") or {}, log=lg),
                             backend="fs" if hash(s["id"]) % 7 == 0 else "mem"))
     return out
 
@@ -377,7 +384,9 @@ def fault_variation(scn, tier, seed):
 def c10_models(tier):
     # the logger comparison runs over more than fault scenarios: unsafe methods with every status, every stored status
     return fault_models(tier) + hist_models("inval")(tier) + \
-        [mc("MC_store", "store", Defects="{}", Family=q("store"), Tier=q(tier), Export="TRUE", replay_cap={"quick": 1200, "thorough": 20000})]
+        [mc("MC_store", "store", Defects="{}", Family=q("store"), Tier=q(tier), Export="TRUE", replay_cap={"quick": 1200, "thorough": 20000}),
+         # origin failures during background revalidation include the answer that never comes: the timeout has to end it cleanly
+         mc("MC_swr", "swr_1000", Defects="{}", Tier=q(tier), Export="TRUE", SwrSetting="1000", replay_cap={"quick": 500, "thorough": 20000})]
 
 
 PLANS["C10"] = Plan("C10", c10_models, post=fault_variation, extra=gen.byte_mutations, level="model_checking",
@@ -453,12 +462,12 @@ def kv_models(tier):
 
 def atomic_models(tier):
     big = tier == "thorough"
-    return [mc("FsAtomic", "fsatomic", invariants=("NoTornRead", "LiveComplete"), export=False,
+    return [mc("FsAtomic", "fsatomic", invariants=("NoTornRead", "LiveComplete", "NoLostValue", "LiveKept"), export=False,
                Writers="{1, 2, 3}" if big else "{1, 2}", Readers="{1, 2}" if big else "{1}", Deleters="{1}", Vals="{1, 2}",
-               Chunks="3" if big else "2", WriteMode=q("rename"), TmpNames=q("unique")),
-            mc("MC_fsched", "fsched", invariants=("NoTornRead", "Exported"), export=True, spec="SSpec",
+               Chunks="3" if big else "2", WriteMode=q("rename"), TmpNames=q("unique"), Touch=q("lenient")),
+            mc("MC_fsched", "fsched", invariants=("NoTornRead", "NoLostValue", "Exported"), export=True, spec="SSpec",
                Writers="{1, 2}", Readers="{1}", Deleters="{1}" if big else "{}", Vals="{1, 2}", Chunks="1",
-               WriteMode=q("rename"), TmpNames=q("unique"), Export="TRUE")]
+               WriteMode=q("rename"), TmpNames=q("unique"), Touch=q("off"), Export="TRUE")]
 
 
 def sched_scenarios(rows, tier, seed):
